@@ -2852,7 +2852,7 @@ def allclose_units(actual, desired, rtol=1e-7, atol=0, **kwargs):
     # to avoid spurious errors
     act = act.value
     des = des.value
-    rt = rt.value
+    rt = rt.in_units("dimensionless").value
     at = at.value
 
     return np.allclose(act, des, rt, at, **kwargs)
